@@ -1170,6 +1170,143 @@ theorem ingest_verdict_rfc1071 (tag us : Nat) (buf : Bytes) (p : Pkt) (i : Pipel
 
 end Verdict
 
+/-! #### at the level of the files -/
+
+/-- the last stage of `run()`: the writer -/
+def finish (r : Except Options.Err (List Pipeline.OutPkt)) : Outcome :=
+  match r with
+  | .error _ => .badOptions
+  | .ok out =>
+    match OutBytes.fileOf out with
+    | .error e => .abort (.write e)
+    | .ok f => .file f
+
+/-- the program in terms of its stages -/
+theorem exportFile_stages (args : Args) (legacy : Bool) (kl : Option Keylog.Str) (capture : Bytes) :
+    exportFile mask H P args legacy kl capture =
+      if optionsBad (freshState : Export.Prior) args then .badOptions
+      else match Ingest.itemsWith Keylog.srcHexClass args.checksumTest legacy capture with
+        | .error e => .abort (.ingest e)
+        | .ok (xs, is) => finish (framesFrom mask H P freshState args (fileKeysOf kl) xs (Ingest.lookup is)) := by
+  unfold exportFile exportFrom finish
+  split
+  · rfl
+  · cases Ingest.itemsWith Keylog.srcHexClass args.checksumTest legacy capture with
+    | error e => rfl
+    | ok v => obtain ⟨xs, is⟩ := v; rfl
+
+/-- **C11, whole program.** The run with `-c` on ANY capture file: the read loop (reader, dpkt, the verdict of
+    `calculate_checksum_tcp/udp` per TCP / UDP frame with a payload — which is the RFC 1071 receiver's verdict:
+    `ingest_verdict_rfc1071`) delivers the items `xs`; the output file is then, byte for byte, what the run WITHOUT `-c`
+    writes for the items with exactly the rejected frames removed — or the same abort. Non-IP frames, frames dpkt does
+    not dissect to TCP / UDP, empty segments: left in place, ignored by both runs as before.
+    (Stated on the items of the read loop, not on a re-encoded capture file: removing frames from the FILE renumbers the
+    packets behind them (`Pkt.tag` = position), and equality then needs the invariance of the session machines under
+    renaming of tags — not proved.) -/
+theorem export_checksum_filter (args : Args) (legacy : Bool) (kl : Option Keylog.Str) (capture : Bytes) :
+    exportFile mask H P (argsC args true) legacy kl capture =
+      if optionsBad (freshState : Export.Prior) args then .badOptions
+      else match Ingest.itemsWith Keylog.srcHexClass true legacy capture with
+        | .error e => .abort (.ingest e)
+        | .ok (xs, is) =>
+          finish (framesFrom mask H P freshState (argsC args false) (fileKeysOf kl)
+            (xs.filter fun it => !rejected it) (Ingest.lookup is)) := by
+  rw [exportFile_stages]
+  have : optionsBad (freshState : Export.Prior) (argsC args true) = optionsBad (freshState : Export.Prior) args := rfl
+  rw [this]
+  split
+  · rfl
+  · simp only [argsC]
+    cases Ingest.itemsWith Keylog.srcHexClass true legacy capture with
+    | error e => rfl
+    | ok v =>
+      obtain ⟨xs, is⟩ := v
+      simp only
+      exact congrArg finish (export_checksum_filter_frames mask H P (Ingest.lookup is) freshState args (fileKeysOf kl) xs)
+
+/-! #### without `-c` the checksums are never looked at -/
+section NoC
+open TLX.Dissect
+
+/-- everything `Packet.__init__` sets EXCEPT what only the checksum functions read (`ip.p`, `bytes(packet.tcp/udp)`) -/
+def viewNoCsum : Dissected → Option (Bool × Bytes × Bytes × Bytes × Bytes × Transport)
+  | .notIp => none
+  | .ip x => some (x.v6, x.srcMac, x.dstMac, x.src, x.dst, x.l4)
+
+theorem framePkt_noC_congr (tag us : Nat) (b₁ b₂ : Bytes)
+    (h : (dissect b₁).map viewNoCsum = (dissect b₂).map viewNoCsum) :
+    Ingest.framePkt false tag us b₁ = Ingest.framePkt false tag us b₂ := by
+  unfold Ingest.framePkt
+  cases h₁ : dissect b₁ with
+  | error e₁ =>
+    cases h₂ : dissect b₂ with
+    | error e₂ => rw [h₁, h₂] at h; cases h; rfl
+    | ok d₂ => rw [h₁, h₂] at h; cases h
+  | ok d₁ =>
+    cases h₂ : dissect b₂ with
+    | error e₂ => rw [h₁, h₂] at h; cases h
+    | ok d₂ =>
+      rw [h₁, h₂] at h
+      simp only [Except.map, Except.ok.injEq] at h
+      cases d₁ with
+      | notIp =>
+        cases d₂ with
+        | notIp => rfl
+        | ip y => cases h
+      | ip x =>
+        cases d₂ with
+        | notIp => cases h
+        | ip y =>
+          simp only [viewNoCsum, Option.some.injEq, Prod.mk.injEq] at h
+          obtain ⟨e1, e2, e3, e4, e5, e6⟩ := h
+          simp only [Bool.false_eq_true, if_false, Option.getD_none, e1, e2, e3, e4, e5, e6]
+
+/-- two reader items that differ at most in what only the checksum functions read (a packet whose time stamp is −1 is
+    taken for a secrets block and its bytes are parsed as key-log text: excluded) -/
+def SameButChecksums : Container.Item → Container.Item → Prop
+  | .pkt t₁ b₁, .pkt t₂ b₂ =>
+    t₁ = t₂ ∧ Ingest.isMinusOne t₁ = false ∧ (dissect b₁).map viewNoCsum = (dissect b₂).map viewNoCsum
+  | .dsb s₁, .dsb s₂ => s₁ = s₂
+  | _, _ => False
+
+theorem go_noC_congr {l₁ l₂ : List Container.Item} (h : Zip SameButChecksums l₁ l₂) :
+    ∀ tag, Ingest.go Keylog.srcHexClass false tag l₁ = Ingest.go Keylog.srcHexClass false tag l₂ := by
+  induction h with
+  | nil => intro tag; rfl
+  | @cons a b as bs hab _ ih =>
+    intro tag
+    cases a with
+    | dsb s₁ =>
+      cases b with
+      | dsb s₂ => have : s₁ = s₂ := hab; subst this; simp only [Ingest.go, ih]
+      | pkt t d => exact absurd hab (by simp [SameButChecksums])
+    | pkt t₁ d₁ =>
+      cases b with
+      | dsb s => exact absurd hab (by simp [SameButChecksums])
+      | pkt t₂ d₂ =>
+        obtain ⟨ht, hm, hd⟩ : t₁ = t₂ ∧ Ingest.isMinusOne t₁ = false ∧ _ := hab
+        subst ht
+        simp only [Ingest.go, hm, Bool.false_eq_true, if_false, framePkt_noC_congr tag _ d₁ d₂ hd, ih]
+
+/-- **Without `-c` checksums are never looked at.** Two capture files whose readers deliver, position by position, the
+    same secrets blocks and packets at the same instants whose DISSECTIONS agree in everything but `ip.p` and the
+    transport bytes handed to the checksum functions — e.g. the same frames with the IPv4 header checksum, the TCP or the
+    UDP checksum field overwritten with anything (`checksum_fields_not_dissected`) — give the same outcome when `-c` is
+    absent: byte-identical output files, or the same abort. -/
+theorem export_ignores_checksums_without_c (args : Args) (legacy₁ legacy₂ : Bool) (kl : Option Keylog.Str)
+    (cap₁ cap₂ : Bytes) (its₁ its₂ : List Container.Item) (ended : Option Container.Err)
+    (hr₁ : Container.readPrefix legacy₁ cap₁ = .ok (its₁, ended))
+    (hr₂ : Container.readPrefix legacy₂ cap₂ = .ok (its₂, ended))
+    (hz : Zip SameButChecksums its₁ its₂) :
+    exportFile mask H P (argsC args false) legacy₁ kl cap₁ = exportFile mask H P (argsC args false) legacy₂ kl cap₂ := by
+  apply exportFile_congr_ingest
+  simp only [argsC]
+  unfold Ingest.itemsWith
+  rw [hr₁, hr₂]
+  simp only [go_noC_congr hz 0]
+
+end NoC
+
 end C11
 
 end TLX.Props.ExportInputs
